@@ -948,6 +948,14 @@ class Interp:
             st.store[k] = clo
             self.push_frame(st, body, [Ref(k)] + list(tup.fields), dst, nxt)
             return None
+        if re.search(r"OwningIovec::(<'_>::)?arena$", c):
+            self.ret(st, dst, Adt("ArenaHandle", {}), nxt)
+            return None
+        if re.match(r"^ByteArena::read_n::<.*>$", c):
+            return self.read_n_contract(st, dst, args, nxt)
+        if re.match(r"^(std::io::)?Error::other::<.*>$", c):
+            self.ret(st, dst, Adt("IoError", {"kind": "other", "inner": args[0]}), nxt)
+            return None
         if re.match(r"^StreamChunker::pump::<.*>$", c):
             return self.pump_contract(st, dst, args, nxt)
         return NotImplemented
@@ -1006,6 +1014,30 @@ class Interp:
                 outs.append(s2)
         return outs
 
+    def read_n_contract(self, st, dst, args, nxt):
+        """ByteArena::read_n replaced by the contract C17 decides for the real function: Ok(the first k bytes the reader
+        holds) for any k <= min(count, available) - which k depends on short reads, interrupted calls and the attempt
+        budget - or Err(e) with nothing delivered.  count == 0 returns an empty slice without touching the reader."""
+        reader, count = self.val(st, args[1]), args[2]
+        data = reader.get("data")
+        if not isinstance(count, int):
+            raise Unsupported("symbolic count")
+        self.nread = getattr(self, "nread", 100) + 1
+        outs = []
+        top = min(count, len(data.elems))
+        for k in range(0, top + 1):
+            s2 = st.fork()
+            a = Adt("AnchoredSlice", {"slice": Slice(data.elems[:k], "anch%d" % self.nread), "anchor": Adt("Anchor", {"id": self.nread})})
+            s2.events.append(("read_n", k))
+            self.ret(s2, dst, Adt("Ok", [a]), nxt)
+            outs.append(s2)
+        if count > 0:
+            s2 = st.fork()
+            s2.events.append(("read_n", "err"))
+            self.ret(s2, dst, Adt("Err", [Adt("IoError", {"kind": "reader"})]), nxt)
+            outs.append(s2)
+        return outs
+
     def pump_splits(self, maxlen, st):
         """Lengths a Data chunk may take when `maxlen` bytes precede the next sentinel / the end: all of them by default."""
         return range(1, maxlen + 1)
@@ -1058,7 +1090,7 @@ class Interp:
             if len(cands) != 1:
                 raise Unsupported("cannot resolve %s (%d candidates)" % (callee, len(cands)))
             return cands[0]
-        m = re.match(r"^(Encoder|Decoder)::<'_>::(\w+)$", callee)
+        m = re.match(r"^(Encoder|Decoder)::<'_>::(\w+)(?:::<.*>)?$", callee)
         if m:
             return self.api_body(m.group(1), m.group(2))
         m = re.match(r"^(EncoderState|DecoderState|InitialState|BeforeChunk|MidHeader|InChunk)::(\w+)(?:::<.*>)?$", callee)
